@@ -188,7 +188,7 @@ pub fn grammars(tier: Tier) -> Vec<Grammar> {
 		Tier::Quick => vec![
 			Grammar {
 				name: "core-deep",
-				max_len: 8,
+				max_len: 7,
 				max_w: 3,
 				max_p: 3,
 				max_r: 3,
@@ -201,7 +201,7 @@ pub fn grammars(tier: Tier) -> Vec<Grammar> {
 			},
 			Grammar {
 				name: "wide-shallow",
-				max_len: 6,
+				max_len: 5,
 				max_w: 2,
 				max_p: 2,
 				max_r: 3,
@@ -260,7 +260,7 @@ fn classify(f: &WorldFailure, _ops: &[Op], _opt: &OptSet) -> String {
 pub fn check(tier: Tier) -> i32 {
 	surrealkv::verif::set_forced_height(1);
 	let mut report = Report::new("C01", tier, "model_checking");
-	let budget = Budget::new(if tier == Tier::Quick { 50.0 } else { 1000.0 });
+	let budget = Budget::new(if tier == Tier::Quick { 42.0 } else { 800.0 });
 	let mut stats = SpaceStats::default();
 	let mut completed = vec![];
 	let mut samples = vec![];
@@ -295,7 +295,12 @@ pub fn check(tier: Tier) -> i32 {
 	report.set("bounds_completed", json!(completed));
 	report.set("exhaustive", json!(all_complete));
 	report.set("failures_per_class", json!(stats.per_class));
-	report.assume("sequential part only: thread interleavings of begin/commit/compaction are explored by the schedx engine (see C05/C17) and not claimed here");
 	report.assume("option sets and key/value alphabets are fixed finite lists");
+	// schedule part: a long-lived reader's begin and repeated reads interleaved with committers,
+	// flush and compaction at the hook points (preemption-bounded)
+	let code = crate::props::sched::run_into(&mut report, "C01", tier, if tier == Tier::Quick { 10.0 } else { 300.0 });
+	if code != 0 {
+		return code;
+	}
 	report.finish()
 }
